@@ -127,6 +127,7 @@ fn gen_user(rng: &mut Rng) -> UserKind {
                         } else {
                             None
                         },
+                        auth: rng.chance(1, 3),
                     },
                 }
             }
@@ -295,6 +296,7 @@ impl Scenario for OutcomeScenario {
                 script.push(MOp::Enable);
             }
         }
+        crate::verif::smast::sprinkle_split_replies(rng, &mut script);
         SmastCase {
             cfg,
             chunk: rng.below(5) as u8,
@@ -388,6 +390,7 @@ fn first_func(kind: &UserKind) -> Option<u8> {
             }
         }
         UserKind::DeadBands(_) => 2,
+        UserKind::FileRead { auth: true, .. } => 29,
         UserKind::FileRead { .. } | UserKind::Directory(_) => 25,
         UserKind::FileInfo => 28,
         UserKind::FileAuth => 29,
@@ -398,6 +401,21 @@ fn first_func(kind: &UserKind) -> Option<u8> {
 }
 
 fn expected_steps(kind: &UserKind) -> usize {
+    if let UserKind::FileRead {
+        blocks,
+        block_size,
+        abort_at,
+        auth: true,
+    } = kind
+    {
+        // the authentication step comes first
+        return 1 + expected_steps(&UserKind::FileRead {
+            blocks: *blocks,
+            block_size: *block_size,
+            abort_at: *abort_at,
+            auth: false,
+        });
+    }
     match kind {
         // open, every block, close; the reader aborting in `opened` leads straight to the close, aborting at a block ends the task
         UserKind::FileRead {
@@ -976,6 +994,7 @@ pub fn analyse(
             blocks,
             block_size,
             abort_at,
+            ..
         } = &user.kind
         {
             let terminals = user
